@@ -815,6 +815,10 @@ def render_value(v, ty):
         for it in v:
             if _real_isinstance(it, tuple) and it[0] == 'bytes':
                 parts.append('enc_bytes %s' % render_value(it[1] if it[1] is not None else b'', 'Y'))
+            elif _real_isinstance(it, tuple) and it[0] == 'obytes':
+                parts.append('enc_opt enc_bytes %s' % ('None' if it[1] is None else '(Some %s)' % render_value(it[1], 'Y')))
+            elif _real_isinstance(it, bool):
+                parts.append('[%d]' % int(it))
             else:
                 parts.append('[%s]' % render_value(it, 'Z'))
         return '(' + ' ++ '.join(parts) + ')' if parts else '[]'
@@ -916,6 +920,9 @@ def translate(spec):
                 else:
                     arms.append('%s| %s => %s' % (pad, pat, cases(i + 1, actual + [val])))
             return 'match %s with\n%s\n%send' % (n, '\n'.join(arms), pad)
+        if ty == ('opt', 'B'):
+            return 'match %s with\n%s| Some true => %s\n%s| Some false => %s\n%s| None => %s\n%send' % (
+                n, pad, cases(i + 1, actual + [True]), pad, cases(i + 1, actual + [False]), pad, cases(i + 1, actual + [None]), pad)
         if ty == ('opt', 'Y'):
             return 'match %s with\n%s| Some %s_v => %s\n%s| None => %s\n%send' % (
                 n, pad, n, cases(i + 1, actual + [SymBytes([('var', E('var', (n + '_v',), 'Y'))])]), pad, cases(i + 1, actual + [None]), pad)
